@@ -109,4 +109,43 @@ PROPS = {
                       "pulse heights under glide, mean power over constant stretches"],
         assumptions=["the MLSA filter with zero coefficients is the identity (theorem mlsaDf_zero, C06)"],
     ),
+    "C06": dict(
+        rule="pulse responses through the public Vocoder (stage 0, one long frame, F0 = 20 Hz, no low-pass): cepstral orders 2..40, alpha in [0,0.6] incl. 0, "
+             "random cepstra rescaled so that |sum_{m>=1} c_m cos(m w~)| <= 2, rates 8k..96k, DFT on 33/65/129/257 frequencies. "
+             "class = (order bucket, alpha bucket, rate); non-trivial = non-zero cepstrum beyond c0",
+        theorem_clauses=["mc2b and b2mc are mutually inverse for every alpha", "zero coefficients: the MLSA cascade is the identity in every state",
+                         "c0 -> c0+delta shifts only b0 and multiplies the filter input by exp(delta)"],
+        test_clauses=["|ln|H(e^jw)| - sum c_m cos(m w~)| <= 0.01 neper on every bin (Pade approximation error of a concrete rational function)",
+                      "response decayed inside the frame"],
+        assumptions=["linearity of the cascade in its input is used informally for the gain clause (not yet a theorem)"],
+    ),
+    "C13": dict(
+        rule="pulse responses through the public Vocoder with stage 1..4: LSP orders 2..24 even and odd, alpha in [0,0.6] incl. 0, linear and log gain, "
+             "random increasing frequencies with spacing >= pi/(4(order+1)), rates 48k/96k, one frame of rate/20-1 samples; every 4th case with beta>0 "
+             "(finite/decaying only). class = (order bucket, parity, stage, alpha, gain kind, beta); spectrum clause evaluated when the truncated tail is < -120 dB",
+        theorem_clauses=["repaired lsp2lpc does not read the gain element; head coefficient 1", "gc2gc between equal gamma is truncation",
+                         "ignorm inverts gnorm (given the power law)", "MGLSA = cascade of `stage` sections", "gamma = -1/stage"],
+        test_clauses=["|ln|H| - ln(K/|A(e^{jw~})|^s)| <= 0.001 neper within 100 dB of the peak, A from polynomial multiplication of the LSP factors",
+                      "finite, decaying response", "lsp2lpc output = coefficients of (P+Q)/2 (not yet a theorem)"],
+        assumptions=[],
+    ),
+    "C14": dict(
+        rule="three-frame stationary runs through the public Vocoder at 16 kHz, F0 20.01 Hz, frame period 700, with beta and with beta = 0: cepstra as C06 "
+             "(scaled by 1/(1+beta), |c1| >= 0.3), orders 3..40, the two-coefficient no-op case, alpha in [0,0.6] incl. 0, beta in [0.02,0.5] and 0. "
+             "class = (length bucket, beta bucket, alpha zero/non-zero); non-trivial = beta > 0 and more than two coefficients",
+        theorem_clauses=["coefficient law: orders >= 2 times (1+beta), order 1 unchanged, order 0 shifted by ln(e1/e2)/2 - beta*alpha^2*b2",
+                         "beta <= 0 or <= 2 coefficients: no-op", "freqt at alpha = 0 is the identity (repaired order); pinned order reverses (defect)"],
+        test_clauses=["energy of the running filter's impulse response within 1 % (frames 2-3)", "log-spectrum difference = beta*sum_{m>=2} c_m cos(m w~) + const within 0.04 neper",
+                      "bit-identical output for beta = 0 / two coefficients"],
+        assumptions=[],
+    ),
+    "C16": dict(
+        rule="(a) stage-level: random short runs of both filter families (stage 0 and 1..4, with/without low-pass, post-filter) at volume 10^(v/20) vs volume 1; "
+             "(b) engine-level: bundled and generated voices (2/3 streams, stage 0 / >=1), random in-envelope conditions, 1..3 labels, set_volume(v) vs 0 dB, v in [-60,60] "
+             "incl. +-6.02, +-60, 20; get_volume read back; all other getters compared. class = (voice kind / stage, sign of v); non-trivial = v != 0",
+        theorem_clauses=["one frame at gain g = frame at gain 1 scaled, vocoder state identical (any family)", "whole rendering scales by g (induction over frames)",
+                         "get_volume(set_volume v) = v given ln(exp x) = x", "decibels add (exp of a sum)", "set_volume changes no other setting"],
+        test_clauses=["10^(v/20) vs exp(v*DB) in f64 (1e-12 relative)"],
+        assumptions=["exp/ln laws enter as explicit hypotheses on the Transc instance"],
+    ),
 }
